@@ -11,7 +11,7 @@ import alloc_common
 def run(tier, seed):
     chk = vlib.Check("C11", tier, seed)
     flav = ("asan", "asan-ndebug")
-    n = 120 if tier == "quick" else 2000
+    n = 70 if tier == "quick" else 2000
     cases = sim_common.make_cases("C11", tier, seed, n, variants=(0, 0, 1, 2, 0, 3), fp_levels=(1, 2, 3), sizes=(0, 1, 0), flavours=flav)
     sim_common.run_sim_cases(chk, cases, timeout=300, retries=0)
     # the unit engines, reduced counts; any sanitizer report in repo code is a C11 violation
